@@ -242,7 +242,8 @@ class Env(object):
         elif coords == "aff":
             c = AffineCoordinates(np.array([[float(x) for x in r] for r in affine_rows(nd)]))
         self.coords = coords
-        d = Data(x=self.xv, cat=self.catv, label="d", coords=c)
+        self.cat2v = np.array(list("uv"))[(np.arange(n) * 3) % 2].reshape(shape)
+        d = Data(x=self.xv, cat=self.catv, cat2=self.cat2v, label="d", coords=c)
         d["der"] = d.id["x"] * 2 + 1
         d["der2"] = d.id["x"] + d.pixel_component_ids[0]
         d2 = Data(y=self.xv + 100, label="d2")
@@ -318,7 +319,10 @@ BIG = 1000
 
 
 def _table(env, st):
-    full = np.asarray(env.d.get_mask(st))
+    try:
+        full = np.asarray(env.d.get_mask(st))
+    except Exception:  # noqa  (the full-size mask itself raises: run_impl reports it, the Spec rejects it)
+        full = np.zeros(env.shape, dtype=bool)
     return ["table", [bool(b) for b in full.ravel().tolist()]]
 
 
@@ -355,15 +359,16 @@ def build_state(env, name):
     if name == "catroi":
         return S.CategoricalROISubsetState(cat, R.CategoricalROI(["a", "c"])), ["pred", env.attrs["cat"][1], ["isin", 97, 99]]
     if name == "catroi2d":
-        if nd != 1:
-            return None  # the class loops over `range(len(labels))`: 1-d datasets only (n-d raises for every view)
+        # the class loops over the ravelled labels (fix C04i): any dataset dimension, any view
         st = S.CategoricalROISubsetState2D({"a": ["a"], "b": ["b", "c"]}, cat, cat)
         return st, ("measure1d", st, True)
     if name == "catmulti":
-        if nd != 1:
-            return None
         st = S.CategoricalMultiRangeSubsetState({"a": [(0, 5)], "c": [(3, 20)]}, cat, x)
         return st, ("measure1d", st, False)
+    if name == "catroi2d_x":
+        # two different attributes: labels x labels of a second categorical attribute
+        st = S.CategoricalROISubsetState2D({"a": ["u"], "c": ["u", "v"]}, cat, d.id["cat2"])
+        return st, ("measure1d", st, True)
     if name == "roi_xy":
         return (S.RoiSubsetState(x, d.id["der"], R.RectangularROI(0.5, 7.5, 1.5, 12.5)),
                 ["pred2", xs, env.attrs["der"][1], ["rect", half(0.5), half(7.5), half(1.5), half(12.5)]])
@@ -478,11 +483,13 @@ COMPOSITE_DEFS = {
     "inv_2": ("inv", ["roi_pix_b"]),
     "mor_1": ("mor", ["range", "slice_c", "roi_pix_a"]),
     "nest_1": ("and", ["or_1", "inv_1"]),
+    "and_3": ("and", ["roi_pre", "catmulti"]),
+    "mor_2": ("mor", ["catroi2d", "roi_pre", "slice_c"]),
 }
 
 STATE_NAMES = [
     "base", "range", "range_pix", "range_der", "range_linked", "range_world", "multirange", "ineq", "ineq_pix",
-    "ineq2", "category", "catroi", "catroi2d", "catmulti", "roi_xy", "roi_mixed", "roi_undefined",
+    "ineq2", "category", "catroi", "catroi2d", "catroi2d_x", "catmulti", "roi_xy", "roi_mixed", "roi_undefined",
     "roi_pix_a", "roi_pix_b", "roi_pix_c", "roi_pix_d", "roi_nd", "roi3d", "roi_pre",
     "slice_a", "slice_b", "slice_c", "slice_d", "slice_e", "slice_f", "slice_g", "slice_unrelated", "slice_aligned",
     "pixelstate", "mask_same", "mask_list", "mask_perm", "floodfill", "element", "element_neg", "element_anon",
@@ -495,9 +502,9 @@ CLASS_GENERATORS = {
     "RoiSubsetState": ["roi_pix_a", "roi_pix_b", "roi_pix_c", "roi_pix_d", "roi_xy", "roi_mixed", "roi_undefined"],
     "RoiSubsetState3d": ["roi3d"], "CategoricalROISubsetState": ["catroi"],
     "RangeSubsetState": ["range", "range_pix", "range_der", "range_linked", "range_world"],
-    "MultiRangeSubsetState": ["multirange"], "CategoricalROISubsetState2D": ["catroi2d"],
-    "CategoricalMultiRangeSubsetState": ["catmulti"], "OrState": ["or_1", "or_2"], "AndState": ["and_1", "and_2", "nest_1"],
-    "XorState": ["xor_1", "xor_2"], "InvertState": ["inv_1", "inv_2"], "MultiOrState": ["mor_1"],
+    "MultiRangeSubsetState": ["multirange"], "CategoricalROISubsetState2D": ["catroi2d", "catroi2d_x"],
+    "CategoricalMultiRangeSubsetState": ["catmulti"], "OrState": ["or_1", "or_2"], "AndState": ["and_1", "and_2", "and_3", "nest_1"],
+    "XorState": ["xor_1", "xor_2"], "InvertState": ["inv_1", "inv_2"], "MultiOrState": ["mor_1", "mor_2"],
     "MaskSubsetState": ["mask_same", "mask_list", "mask_perm"], "FloodFillSubsetState": ["floodfill"],
     "SliceSubsetState": ["slice_a", "slice_b", "slice_c", "slice_d", "slice_e", "slice_f", "slice_g",
                          "slice_unrelated", "slice_aligned"],
@@ -522,8 +529,6 @@ def resolve_desc(env, desc):
 def applicable_states(nd, coords):
     out = []
     for n in STATE_NAMES:
-        if n in ("catroi2d", "catmulti") and nd != 1:
-            continue
         if n == "roi3d" and nd != 3:
             continue
         if n == "mask_perm" and nd < 2:
@@ -531,6 +536,26 @@ def applicable_states(nd, coords):
         if n == "range_world" and coords == "none":
             continue
         out.append(n)
+    return out
+
+
+FORMER_LOUD = ["roi_pre", "roi3d", "catroi2d", "catroi2d_x", "catmulti", "and_3", "mor_2"]
+
+
+def single_element_views(shape, rng, tier):
+    """Views whose result is 0-d (every element, as a tuple of non-negative / negative integers; the
+    largest shapes are sampled in quick) and tuples of index arrays with a 2-d / 3-d common shape."""
+    idx = list(itertools.product(*[range(s) for s in shape]))
+    if tier == "quick" and len(idx) > 12:
+        idx = [idx[i] for i in sorted(rng.sample(range(len(idx)), 12))]
+    out = []
+    for j, t in enumerate(idx):
+        out.append(["b", [["i", (k - s) if (j + a) % 3 == 2 else k] for a, (k, s) in enumerate(zip(t, shape))], "t"])
+    if len(shape) == 1:
+        out.append(["b", [["i", 0]], "x"])
+    for ish in ([2, 2], [1, 2], [2, 1, 2], [0, 2], [1, 1]):
+        cnt = int(np.prod(ish))
+        out.append(["a", list(ish), [["r", [rng.randrange(-s, s) for _ in range(cnt)]] for s in shape]])
     return out
 
 
@@ -708,7 +733,6 @@ class MaskViews(Base):
     name = "mask"
     exhaustive = False
     budget_share = 1.6
-    known_findings_uncounted = True
 
     def cases(self, tier, rng):
         m = 3 if tier == "quick" else 4
@@ -716,6 +740,12 @@ class MaskViews(Base):
         for sh in shapes_upto(3, m):
             nd = len(sh)
             size = int(np.prod(sh))
+            for v in single_element_views(sh, rng, tier):
+                # formerly the finding stratum (C04h, C04i): the chunked ROI tests and the looping
+                # categorical classes under views that select a single element / index arrays with >= 2 axes
+                for n in FORMER_LOUD:
+                    if n in applicable_states(nd, "none"):
+                        yield [list(sh), "none", n, v]
             for coords in (["none", "aff"] if nd <= 2 else ["none"]):
                 names = applicable_states(nd, coords)
                 if coords != "none":
@@ -761,16 +791,7 @@ class MaskViews(Base):
 
     def signature(self, case, po, res):
         name = case[2]
-        sig = {"state": name.rstrip("0123456789").rstrip("_"), "view": view_kind(case[3])}
-        if isinstance(po, list) and len(po) == 2 and isinstance(po[1], list) and po[1] and po[1][0] == "py-exception":
-            view = case[3]
-            scalar = isinstance(view, list) and view[0] == "b" and len(view[1]) == len(case[0]) and all(it[0] == "i" for it in view[1])
-            nd_arrays = isinstance(view, list) and view[0] == "a" and len(view[1]) >= 2
-            if name in ("roi3d", "roi_pre") and scalar and po[1][1] == "IndexError":
-                sig["construct"] = "chunked-roi-scalar-view"
-            elif name in ("catroi2d", "catmulti") and (scalar or nd_arrays):
-                sig["construct"] = "cat2d-non-1d-view"
-        return sig
+        return {"state": name.rstrip("0123456789").rstrip("_"), "view": view_kind(case[3])}
 
     def shrink(self, case):
         sh, coords, name, view = case
@@ -883,7 +904,8 @@ class IdxAttr(IndexedBase):
 
 
 IDX_STATES = ["range", "range_pix", "ineq_pix", "category", "roi_pix_a", "roi_pix_b", "roi_nd", "slice_a", "slice_c",
-              "slice_aligned", "mask_same", "mask_perm", "element", "and_2", "xor_1", "inv_1", "mor_1", "base"]
+              "slice_aligned", "mask_same", "mask_perm", "element", "and_2", "xor_1", "inv_1", "mor_1", "base",
+              "roi_pre", "catmulti", "catroi2d_x"]
 
 
 class IdxMask(IndexedBase):
@@ -1088,8 +1110,8 @@ class Classes(Base):
 THEOREMS = ["C04." + t for t in (
     "index_tabulate viewPoints_in_range pixel_view_values pixel_view attr_view attr_view_values derived_view world_view "
     "roi_pixel_shortcut_values roi_pixel_shortcut_view slice_state_view slice_state_values mask_state_view "
-    "mask_state_general_view element_state_view state_view state_view_values state_view_partial "
-    "chunked_roi_scalar_view_raises loop1d_scalar_view_raises indexed_get indexed_pixel indexed_mask "
+    "mask_state_general_view element_state_view state_view state_view_values "
+    "chunked_roi_scalar_view_pinned_raises loop1d_scalar_view_pinned_raises indexed_get indexed_pixel indexed_mask "
     "indexed_after_reindex indexed_histogram_selection").split()]
 
 PROP = Property(
